@@ -64,3 +64,13 @@ class SeqModel:
 
     def edit_velocity_of_note_ons(self, f):
         self.ev = sorted((e[:4] + (f(e[4]),) + e[5:]) if e[1] == orc.NOTE_ON else e for e in self.ev)
+
+    def replace_event(self, before, after):
+        ev = list(self.ev)
+        if before in ev:
+            ev.remove(before)
+            ev.append(after)
+            self.ev = sorted(ev)
+        else:
+            # the real object yielded a message the model does not know: make the mismatch visible at the next compare
+            self.ev = sorted(ev + [(-1, "model-unknown-message") + tuple(before[2:])])
